@@ -10,6 +10,7 @@ import (
 	"os/exec"
 	"path/filepath"
 	"sort"
+	"strconv"
 	"strings"
 	"sync"
 	"sync/atomic"
@@ -29,6 +30,8 @@ type Query struct {
 	Hyps    []*Term
 	Schemas []schema
 	Notes   []string
+	GoalHyps []*Term // the hypotheses that come from the (negated) goal
+	GoalOnly bool    // instantiate schemas only at index terms reachable from the goal
 }
 
 type quantErr string
@@ -89,7 +92,37 @@ func strip(t *Term, pos bool, univ *[]string, underUniv bool) *Term {
 }
 
 // buildQuery turns hypotheses and a goal into a quantifier-free query.
-func buildQuery(hyps []*Term, goal *Term) (q *Query, err error) {
+// heavyTerm reports whether t mentions the ghost value functions (V, P, p10) or a
+// product of two non-constant terms.
+func heavyTerm(t *Term) bool {
+	heavy := false
+	walk(t, func(u *Term) bool {
+		if heavy {
+			return false
+		}
+		switch u.Op {
+		case "V", "P", "p10":
+			heavy = true
+		case "*":
+			n := 0
+			for _, a := range u.Args {
+				if !a.isInt() {
+					n++
+				}
+			}
+			if n >= 2 {
+				heavy = true
+			}
+		}
+		return !heavy
+	})
+	return heavy
+}
+
+// buildQuery assembles hypotheses and negated goal.  With light set, hypotheses that
+// mention the value functions or nonlinear products are dropped (sound: fewer
+// hypotheses); frame and scalar goals rarely need them and the query shrinks a lot.
+func buildQuery(hyps []*Term, goal *Term, light bool) (q *Query, err error) {
 	defer func() {
 		if r := recover(); r != nil {
 			if qe, ok := r.(quantErr); ok {
@@ -101,6 +134,7 @@ func buildQuery(hyps []*Term, goal *Term) (q *Query, err error) {
 	}()
 	q = &Query{}
 	// move antecedents of the goal to the hypotheses; the negated goal is one more hypothesis
+	nOwn := len(hyps)
 	for goal.Op == "=>" {
 		hyps = append(hyps[:len(hyps):len(hyps)], goal.Args[0])
 		goal = goal.Args[1]
@@ -124,12 +158,29 @@ func buildQuery(hyps []*Term, goal *Term) (q *Query, err error) {
 		}
 		flat = append(flat, t)
 	}
-	for _, h := range hyps {
+	goalFrom := -1
+	for i, h := range hyps {
+		n0 := len(flat)
+		if i == nOwn {
+			goalFrom = n0
+		}
 		flatten(h)
+		if light && i < nOwn {
+			kept := flat[:n0]
+			for _, t := range flat[n0:] {
+				if !heavyTerm(t) {
+					kept = append(kept, t)
+				}
+			}
+			flat = kept
+		}
 	}
-	for _, h := range flat {
+	for fi, h := range flat {
 		var univ []string
 		b := strip(h, true, &univ, false)
+		if goalFrom >= 0 && fi >= goalFrom {
+			q.GoalHyps = append(q.GoalHyps, b)
+		}
 		if len(univ) == 0 {
 			q.Hyps = append(q.Hyps, b)
 		} else {
@@ -143,6 +194,23 @@ func buildQuery(hyps []*Term, goal *Term) (q *Query, err error) {
 		}
 	}
 	return q, nil
+}
+
+// isWordArray tells word storage (rows of Mem, fresh arrays) from the per-field heaps
+// H_<Type>_<field>, which are indexed by object addresses and never quantified over.
+func isWordArray(a *Term) bool {
+	for {
+		switch a.Op {
+		case "store":
+			a = a.Args[0]
+		case "ite":
+			a = a.Args[1]
+		case "const":
+			return !strings.HasPrefix(a.Name, "H_")
+		default:
+			return true
+		}
+	}
 }
 
 // indexTerms collects candidate instantiation terms.
@@ -171,7 +239,7 @@ func indexTerms(ts []*Term, bound map[string]bool) []*Term {
 	}
 	for _, t := range ts {
 		walk(t, func(u *Term) bool {
-			if u.Op == "select" && u.Args[0].Sort != SMem {
+			if u.Op == "select" && u.Args[0].Sort != SMem && isWordArray(u.Args[0]) {
 				add(u.Args[1])
 			}
 			if u.Op == "V" {
@@ -213,7 +281,7 @@ func patternOffsets(body *Term, v string) []*Term {
 	return offs
 }
 
-const maxInstPerSchema = 60
+var maxInstPerSchema = envInt("DVC_MAXINST", 60)
 
 func instantiate(q *Query) (insts []*Term) {
 	bound := map[string]bool{}
@@ -223,13 +291,18 @@ func instantiate(q *Query) (insts []*Term) {
 		}
 	}
 	ground := append([]*Term(nil), q.Hyps...)
+	if q.GoalOnly {
+		ground = append([]*Term(nil), q.GoalHyps...)
+	}
 	done := map[string]bool{}
 	for round := 0; round < 2; round++ {
 		var all []*Term
 		all = append(all, ground...)
 		all = append(all, insts...)
-		for _, s := range q.Schemas {
-			all = append(all, s.body)
+		if !q.GoalOnly {
+			for _, s := range q.Schemas {
+				all = append(all, s.body)
+			}
 		}
 		cands := indexTerms(all, bound)
 		var added []*Term
@@ -656,10 +729,15 @@ func newDischarger(tier string) *Discharger {
 func (d *Discharger) cleanup() { os.RemoveAll(d.workdir) }
 
 func (d *Discharger) prepare(o *Obligation, getValues []*Term) (string, error) {
-	q, err := buildQuery(o.Hyps, o.Goal)
+	return d.prepareMode(o, getValues, false)
+}
+
+func (d *Discharger) prepareMode(o *Obligation, getValues []*Term, light bool) (string, error) {
+	q, err := buildQuery(o.Hyps, o.Goal, light)
 	if err != nil {
 		return "", err
 	}
+	q.GoalOnly = light
 	t0 := time.Now()
 	insts := instantiate(q)
 	t1 := time.Now()
@@ -710,6 +788,24 @@ func (d *Discharger) discharge(o *Obligation) {
 		return
 	}
 	tw := time.Now()
+	if len(text) > 120_000 && !heavyTerm(o.Goal) {
+		// big query, scalar/frame goal: first try without the value-level hypotheses
+		if lt, err := d.prepareMode(o, nil, true); err == nil && len(lt) < len(text)/2 {
+			lid := int(atomic.AddInt64(&d.nq, 1))
+			lr := solve(d.workdir, lid, lt, d.quickS, 10)
+			if lr.Result == "unsat" {
+				o.Result, o.Solver, o.TimeS = lr.Result, lr.Solver+" (light)", lr.TimeS
+				if d.keep {
+					o.Query = lt
+				}
+				return
+			}
+			if dd := os.Getenv("DVC_LIGHT_DUMP"); dd != "" {
+				os.MkdirAll(dd, 0o755)
+				os.WriteFile(filepath.Join(dd, fmt.Sprintf("%s_%d.light.smt2", mangle(o.Name), o.PathID)), []byte(lt), 0o644)
+			}
+		}
+	}
 	r := solve(d.workdir, id, text, d.quickS, d.fullS)
 	if os.Getenv("DVC_PROF") != "" {
 		fmt.Fprintf(os.Stderr, "solve %s: %s %s solver=%.2fs wall=%.2fs\n", o.Name, r.Result, r.Solver, r.TimeS, time.Since(tw).Seconds())
@@ -748,4 +844,13 @@ func (d *Discharger) dischargeAll(obls []*Obligation, workers int) {
 	}
 	close(ch)
 	wg.Wait()
+}
+
+func envInt(name string, def int) int {
+	if v := os.Getenv(name); v != "" {
+		if n, err := strconv.Atoi(v); err == nil {
+			return n
+		}
+	}
+	return def
 }
